@@ -1,5 +1,7 @@
 import RpmVerif.Lemmas.Decode
 import RpmVerif.Model.Accessors
+import RpmVerif.Gen.FileEntriesShape
+import RpmVerif.Lemmas.PkgFiles  -- shares the auxiliary `buildEntries` match lemmas (two modules realising them independently cannot be imported together)
 /-!
 # C05 — metadata accessors return exactly what the header stores
 
@@ -336,6 +338,427 @@ theorem source_iff_tag_present (h : Header) :
     entryIsPresent h IndexTag.RPMTAG_SOURCEPACKAGE = true ↔ ∃ e ∈ h.entries, e.tag = IndexTag.RPMTAG_SOURCEPACKAGE := by
   simp [entryIsPresent, List.any_eq_true]
 
+/-! ### clause theorems for the composed accessors (AUDIT2 c13 - c15)
+
+What "zipped in order", "assembled … with their per-file attributes" and "the documented empty list" mean, stated on
+the arrays the getters return: lengths, k-th items, which tag wins, which fallback is taken. -/
+
+/-- `multizip` of three arrays, completely characterised: item k exists exactly when all three arrays have an item k,
+and is the triple of those items -/
+theorem zip3_getElem? {α β γ} (as : List α) (bs : List β) (cs : List γ) (k : Nat) :
+    (zip3 as bs cs)[k]? = (as[k]?).bind fun a => (bs[k]?).bind fun b => (cs[k]?).map fun c => (a, b, c) := by
+  induction as generalizing bs cs k with
+  | nil => simp [zip3]
+  | cons a as ih =>
+    cases bs with
+    | nil => cases k <;> simp [zip3]
+    | cons b bs =>
+      cases cs with
+      | nil =>
+        cases k with
+        | zero => simp [zip3]
+        | succ k => simp only [zip3, List.getElem?_nil, List.getElem?_cons_succ, Option.map_none]
+                    cases as[k]? <;> cases bs[k]? <;> rfl
+      | cons c cs =>
+        cases k with
+        | zero => simp [zip3]
+        | succ k => simp only [zip3, List.getElem?_cons_succ, ih]
+
+theorem zip3_length {α β γ} (as : List α) (bs : List β) (cs : List γ) :
+    (zip3 as bs cs).length = min as.length (min bs.length cs.length) := by
+  induction as generalizing bs cs with
+  | nil => simp [zip3]
+  | cons a as ih =>
+    cases bs with
+    | nil => simp [zip3]
+    | cons b bs =>
+      cases cs with
+      | nil => simp [zip3]
+      | cons c cs => simp only [zip3, List.length_cons, ih]; omega
+
+theorem isNotFound_iff {α} (o : Out α) : isNotFound o = true ↔ o = .err "notfound" := by
+  unfold isNotFound
+  split
+  · simp
+  · rename_i hne
+    constructor
+    · intro h; cases h
+    · intro h; exact absurd h (by intro h'; exact hne h')
+
+/-- "zipped in order": item k of a zipped list exists iff all three arrays have an item k and consists of exactly those -/
+theorem zip3_spec {α β γ} (as : List α) (bs : List β) (cs : List γ) :
+    (zip3 as bs cs).length = min as.length (min bs.length cs.length) ∧
+    ∀ k (hk : k < (zip3 as bs cs).length),
+      ∃ (ha : k < as.length) (hb : k < bs.length) (hc : k < cs.length), (zip3 as bs cs)[k] = (as[k], bs[k], cs[k]) := by
+  refine ⟨zip3_length as bs cs, fun k hk => ?_⟩
+  have hl := zip3_length as bs cs
+  have ha : k < as.length := by omega
+  have hb : k < bs.length := by omega
+  have hc : k < cs.length := by omega
+  refine ⟨ha, hb, hc, ?_⟩
+  have := zip3_getElem? as bs cs k
+  rw [List.getElem?_eq_getElem hk, List.getElem?_eq_getElem ha, List.getElem?_eq_getElem hb, List.getElem?_eq_getElem hc] at this
+  simpa using this
+
+/-- dependency k is (names[k], flags[k], versions[k]); as many as the shortest array -/
+theorem deps_kth {h : Header} {a b c : Nat} {ns vs : List Bytes} {fs : List Nat} {r : List Dependency}
+    (h1 : getStringArray h a = .ok ns) (h2 : getU32Array h b = .ok fs) (h3 : getStringArray h c = .ok vs)
+    (hr : getDependencies h a b c = .ok r) :
+    r.length = min ns.length (min fs.length vs.length) ∧
+    ∀ k (hk : k < r.length), ∃ (ha : k < ns.length) (hb : k < fs.length) (hc : k < vs.length),
+      r[k] = ⟨ns[k], fs[k], vs[k]⟩ := by
+  rw [deps_zip h1 h2 h3] at hr
+  cases hr
+  obtain ⟨l, hk⟩ := zip3_spec ns fs vs
+  refine ⟨by simp [l], fun k hk' => ?_⟩
+  have hk'' : k < (zip3 ns fs vs).length := by simpa using hk'
+  obtain ⟨ha, hb, hc, e⟩ := hk k hk''
+  exact ⟨ha, hb, hc, by simp [e]⟩
+
+/-- changelog entries are the three arrays (names, times, texts) zipped in order -/
+theorem changelog_zip {h : Header} {ns ds : List Bytes} {ts : List Nat}
+    (h1 : getStringArray h IndexTag.RPMTAG_CHANGELOGNAME = .ok ns) (h2 : getU32Array h IndexTag.RPMTAG_CHANGELOGTIME = .ok ts)
+    (h3 : getStringArray h IndexTag.RPMTAG_CHANGELOGTEXT = .ok ds) :
+    getChangelog h = .ok ((zip3 ns ts ds).map fun (n, t, d) => ⟨n, t, d⟩) := by
+  simp [getChangelog, triple, h1, h2, h3, isNotFound]
+
+theorem changelog_kth {h : Header} {ns ds : List Bytes} {ts : List Nat} {r : List Changelog}
+    (h1 : getStringArray h IndexTag.RPMTAG_CHANGELOGNAME = .ok ns) (h2 : getU32Array h IndexTag.RPMTAG_CHANGELOGTIME = .ok ts)
+    (h3 : getStringArray h IndexTag.RPMTAG_CHANGELOGTEXT = .ok ds) (hr : getChangelog h = .ok r) :
+    r.length = min ns.length (min ts.length ds.length) ∧
+    ∀ k (hk : k < r.length), ∃ (ha : k < ns.length) (hb : k < ts.length) (hc : k < ds.length),
+      r[k] = ⟨ns[k], ts[k], ds[k]⟩ := by
+  rw [changelog_zip h1 h2 h3] at hr
+  cases hr
+  obtain ⟨l, hk⟩ := zip3_spec ns ts ds
+  refine ⟨by simp [l], fun k hk' => ?_⟩
+  have hk'' : k < (zip3 ns ts ds).length := by simpa using hk'
+  obtain ⟨ha, hb, hc, e⟩ := hk k hk''
+  exact ⟨ha, hb, hc, by simp [e]⟩
+
+theorem changelog_absent {h : Header}
+    (h1 : getStringArray h IndexTag.RPMTAG_CHANGELOGNAME = .err "notfound")
+    (h2 : getU32Array h IndexTag.RPMTAG_CHANGELOGTIME = .err "notfound")
+    (h3 : getStringArray h IndexTag.RPMTAG_CHANGELOGTEXT = .err "notfound") : getChangelog h = .ok [] := by
+  simp [getChangelog, triple, h1, h2, h3, isNotFound]
+
+/-- a result of `get_changelog_entries` is either the documented empty list (all three tags absent) or the zip of
+three successfully read arrays - there is no third way to obtain `Ok` -/
+theorem changelog_ok_cases {h : Header} {r : List Changelog} (hr : getChangelog h = .ok r) :
+    (r = [] ∧ getStringArray h IndexTag.RPMTAG_CHANGELOGNAME = .err "notfound"
+        ∧ getU32Array h IndexTag.RPMTAG_CHANGELOGTIME = .err "notfound"
+        ∧ getStringArray h IndexTag.RPMTAG_CHANGELOGTEXT = .err "notfound") ∨
+    ∃ ns ts ds, getStringArray h IndexTag.RPMTAG_CHANGELOGNAME = .ok ns ∧ getU32Array h IndexTag.RPMTAG_CHANGELOGTIME = .ok ts ∧
+      getStringArray h IndexTag.RPMTAG_CHANGELOGTEXT = .ok ds ∧ r = (zip3 ns ts ds).map fun (n, t, d) => ⟨n, t, d⟩ := by
+  unfold getChangelog triple at hr
+  split at hr
+  · rename_i hnf
+    simp only [Bool.and_eq_true] at hnf
+    cases hr
+    exact .inl ⟨rfl, (isNotFound_iff _).mp hnf.1.1, (isNotFound_iff _).mp hnf.1.2, (isNotFound_iff _).mp hnf.2⟩
+  · split at hr
+    · rename_i ns ts ds e1 e2 e3
+      cases hr
+      exact .inr ⟨ns, ts, ds, e1, e2, e3, rfl⟩
+    · simp only [Out.bind_eq_ok] at hr
+      obtain ⟨_, _, _, _, _, _, hp⟩ := hr
+      cases hp
+
+/-- `get_scriptlet`: the script text decides between value and error (its getter's error is the result); the flags are
+`Some(v)` exactly when the 32-bit getter succeeds on the flags tag and `None` in EVERY other case (tag absent, other
+type, empty array: `.ok()` swallows the error); the interpreter likewise for the string-array getter -/
+theorem scriptlet_spec (h : Header) (a b c : Nat) :
+    (∀ s, getString h a = .ok s →
+        getScriptlet h (a, b, c) = .ok ⟨s, (getU32 h b).toOption, (getStringArray h c).toOption⟩) ∧
+    (∀ cls, getString h a = .err cls → getScriptlet h (a, b, c) = .err cls) ∧
+    (∀ sc, getScriptlet h (a, b, c) = .ok sc →
+        getString h a = .ok sc.script ∧
+        (∀ f, sc.flags = some f ↔ getU32 h b = .ok f) ∧
+        (∀ p, sc.prog = some p ↔ getStringArray h c = .ok p)) := by
+  refine ⟨fun s hs => by simp [getScriptlet, hs], fun cls hc => by simp [getScriptlet, hc], ?_⟩
+  intro sc hsc
+  simp only [getScriptlet, Out.bind_eq_ok, Out.pure_eq, Out.ok.injEq] at hsc
+  obtain ⟨s, hs, rfl⟩ := hsc
+  refine ⟨hs, fun f => ?_, fun p => ?_⟩
+  · cases getU32 h b <;> simp [Out.toOption]
+  · cases getStringArray h c <;> simp [Out.toOption]
+
+/-- `if digest.is_empty() { None } else { Some(FileDigest { algorithm, digest }) }` without the length check: what the
+entry's digest field must be IF the entry is produced -/
+def digestField (algo : Nat) (d : Bytes) : Option (Nat × Bytes) := if d.isEmpty then none else some (algo, d)
+
+/-- **specification of one file entry**: item `k` of the result is assembled from item `k` of EVERY per-file array
+(paths, users, groups, modes, digests, mtimes, sizes, flags, link targets) and exists only if all nine have an item `k`;
+capabilities and IMA signatures are optional arrays looked up BY INDEX (`off + k`; a short array gives `None`). -/
+def entryAt (algo : Nat) (caps ima : Option (List Bytes)) (off : Nat) (ps us gs : List Bytes) (ms : List Nat)
+    (ds : List Bytes) (ts ss fs : List Nat) (ls : List Bytes) (k : Nat) : Option FileEntry := do
+  let p ← ps[k]?; let u ← us[k]?; let g ← gs[k]?; let m ← ms[k]?; let d ← ds[k]?
+  let t ← ts[k]?; let s ← ss[k]?; let f ← fs[k]?; let l ← ls[k]?
+  pure ⟨p, m, u, g, t, s, f, digestField algo d, caps.bind (·[off + k]?), l, ima.bind (·[off + k]?)⟩
+
+theorem cons_of_getElem? {α} {l : List α} {k : Nat} {a : α} (h : l[k]? = some a) : ∃ x xs, l = x :: xs := by
+  cases l with
+  | nil => simp at h
+  | cons x xs => exact ⟨x, xs, rfl⟩
+
+theorem digestOf_ok {algo : Nat} {d : Bytes} {tbl : List (Nat × Nat)} {o : Option (Nat × Bytes)}
+    (h : digestOf algo d tbl = .ok o) : o = digestField algo d ∧ (d ≠ [] → (algo, d.length) ∈ tbl) := by
+  unfold digestOf at h
+  unfold digestField
+  split at h
+  · rename_i he
+    cases h
+    exact ⟨by simp [he], fun hne => absurd (List.isEmpty_iff.mp he) hne⟩
+  · cases hn : fileDigestNew algo d tbl with
+    | ok v =>
+      rw [hn] at h
+      simp only [Out.map, Out.ok.injEq] at h
+      have hv := fileDigestNew_never_invents algo d tbl v hn
+      subst hv; subst h
+      rename_i he
+      exact ⟨by simp [he], fun _ => (fileDigestNew_ok_iff algo d tbl).mp hn⟩
+    | err c => rw [hn] at h; cases h
+    | panic c => rw [hn] at h; cases h
+
+theorem buildEntries_spec {algo : Nat} {caps ima : Option (List Bytes)} {tbl : List (Nat × Nat)} {idx : Nat}
+    {ps us gs : List Bytes} {ms : List Nat} {ds : List Bytes} {ts ss fs : List Nat} {ls : List Bytes} {r : List FileEntry}
+    (h : buildEntries algo caps ima tbl idx ps us gs ms ds ts ss fs ls = .ok r) :
+    (∀ k, r[k]? = entryAt algo caps ima idx ps us gs ms ds ts ss fs ls k) ∧
+    (∀ k d, k < r.length → ds[k]? = some d → d ≠ [] → (algo, d.length) ∈ tbl) := by
+  fun_induction buildEntries algo caps ima tbl idx ps us gs ms ds ts ss fs ls generalizing r with
+  | case1 idx p ps u us g gs m ms d ds t ts s ss f fs l ls ih =>
+    simp only [Out.bind_eq_ok, Out.pure_eq, Out.ok.injEq] at h
+    obtain ⟨dg, hdg, r', hr', rfl⟩ := h
+    obtain ⟨ih1, ih2⟩ := ih hr'
+    obtain ⟨rfl, hmem⟩ := digestOf_ok hdg
+    constructor
+    · intro k
+      cases k with
+      | zero => simp [entryAt]
+      | succ k =>
+        rw [List.getElem?_cons_succ, ih1 k]
+        simp only [entryAt, List.getElem?_cons_succ]
+        have : idx + 1 + k = idx + (k + 1) := by omega
+        rw [this]
+    · intro k d' hk hd' hne
+      cases k with
+      | zero =>
+        simp only [List.getElem?_cons_zero, Option.some.injEq] at hd'
+        subst hd'; exact hmem hne
+      | succ k => exact ih2 k d' (by simpa using hk) (by simpa using hd') hne
+  | case2 =>
+    cases h
+    refine ⟨?_, fun k d hk => absurd hk (by simp)⟩
+    intro k
+    rename_i hno
+    cases hk : entryAt algo caps ima _ _ _ _ _ _ _ _ _ _ k with
+    | none => simp
+    | some e =>
+      exfalso
+      simp only [entryAt, Option.bind_eq_bind, Option.bind_eq_some_iff] at hk
+      obtain ⟨p, hp, u, hu, g, hg, m, hm, d, hd, t, ht, s, hs, f, hf, l, hl, -⟩ := hk
+      obtain ⟨_, _, e1⟩ := cons_of_getElem? hp
+      obtain ⟨_, _, e2⟩ := cons_of_getElem? hu
+      obtain ⟨_, _, e3⟩ := cons_of_getElem? hg
+      obtain ⟨_, _, e4⟩ := cons_of_getElem? hm
+      obtain ⟨_, _, e5⟩ := cons_of_getElem? hd
+      obtain ⟨_, _, e6⟩ := cons_of_getElem? ht
+      obtain ⟨_, _, e7⟩ := cons_of_getElem? hs
+      obtain ⟨_, _, e8⟩ := cons_of_getElem? hf
+      obtain ⟨_, _, e9⟩ := cons_of_getElem? hl
+      exact hno _ _ _ _ _ _ _ _ _ _ _ _ _ _ _ _ _ _ e1 e2 e3 e4 e5 e6 e7 e8 e9
+
+theorem entryAt_isSome_iff (algo : Nat) (caps ima : Option (List Bytes)) (off : Nat) (ps us gs : List Bytes) (ms : List Nat)
+    (ds : List Bytes) (ts ss fs : List Nat) (ls : List Bytes) (k : Nat) :
+    (entryAt algo caps ima off ps us gs ms ds ts ss fs ls k).isSome = true ↔
+      k < ps.length ∧ k < us.length ∧ k < gs.length ∧ k < ms.length ∧ k < ds.length ∧ k < ts.length ∧ k < ss.length ∧
+      k < fs.length ∧ k < ls.length := by
+  simp only [entryAt, Option.bind_eq_bind, Option.isSome_iff_exists, Option.bind_eq_some_iff, List.getElem?_eq_some_iff]
+  constructor
+  · rintro ⟨e, p, ⟨h1, -⟩, u, ⟨h2, -⟩, g, ⟨h3, -⟩, m, ⟨h4, -⟩, d, ⟨h5, -⟩, t, ⟨h6, -⟩, s, ⟨h7, -⟩, f, ⟨h8, -⟩, l, ⟨h9, -⟩, -⟩
+    exact ⟨h1, h2, h3, h4, h5, h6, h7, h8, h9⟩
+  · rintro ⟨h1, h2, h3, h4, h5, h6, h7, h8, h9⟩
+    exact ⟨_, _, ⟨h1, rfl⟩, _, ⟨h2, rfl⟩, _, ⟨h3, rfl⟩, _, ⟨h4, rfl⟩, _, ⟨h5, rfl⟩, _, ⟨h6, rfl⟩, _, ⟨h7, rfl⟩, _, ⟨h8, rfl⟩, _, ⟨h9, rfl⟩, rfl⟩
+
+theorem length_of_isSome_iff {α} (r : List α) (n : Nat) (h : ∀ k, (r[k]?).isSome = true ↔ k < n) : r.length = n := by
+  apply Nat.le_antisymm
+  · cases hr : r.length with
+    | zero => omega
+    | succ j =>
+      have := (h j).mp (by rw [Option.isSome_iff_exists]; exact ⟨r[j], List.getElem?_eq_getElem (by omega)⟩)
+      omega
+  · apply Nat.le_of_not_lt
+    intro hlt
+    have := (h r.length).mpr hlt
+    simp at this
+
+/-- the number of entries is the length of the SHORTEST of the nine per-file arrays -/
+theorem entries_length {algo : Nat} {caps ima : Option (List Bytes)} {off : Nat} {ps us gs : List Bytes} {ms : List Nat}
+    {ds : List Bytes} {ts ss fs : List Nat} {ls : List Bytes} {r : List FileEntry}
+    (h : ∀ k, r[k]? = entryAt algo caps ima off ps us gs ms ds ts ss fs ls k) :
+    r.length = min ps.length (min us.length (min gs.length (min ms.length (min ds.length (min ts.length
+      (min ss.length (min fs.length ls.length))))))) := by
+  apply length_of_isSome_iff
+  intro k
+  rw [h k, entryAt_isSome_iff]
+  simp only [Nat.lt_min]
+
+/-- the algorithm `get_file_entries` labels every digest with: `get_file_digest_algorithm().unwrap_or(Md5)` -/
+def digestAlgoOrMd5 (h : Header) : Nat := match getFileDigestAlgorithm h with | .ok a => a | _ => 1
+
+/-- where the sizes come from: the 64-bit array RPMTAG_LONGFILESIZES whenever its getter succeeds; the 32-bit
+RPMTAG_FILESIZES only when that getter fails (tag absent or of another type) -/
+def SizesFrom (h : Header) (ss : List Nat) : Prop :=
+  getU64Array h IndexTag.RPMTAG_LONGFILESIZES = .ok ss ∨
+  ((∀ v, getU64Array h IndexTag.RPMTAG_LONGFILESIZES ≠ .ok v) ∧ getU32Array h IndexTag.RPMTAG_FILESIZES = .ok ss)
+
+/-- **`get_file_entries`, value clause.** Whenever it answers `Ok(r)`: either RPMTAG_FILEMODES is absent and `r` is the
+documented empty list, or all eight mandatory arrays and `get_file_paths` were read successfully and
+
+* `r` has as many entries as the SHORTEST of the nine arrays (longer arrays are silently cut - stated, not hidden);
+* entry `k` consists of item `k` of each array (`entryAt`, `entryAt_fields`): path `k` (= `dirs[dirindex[k]]` joined
+  with `basenames[k]`, `filePaths_spec`), mode, user, group, mtime, size, flags, link target;
+* the size array is LONGFILESIZES when that getter succeeds, FILESIZES otherwise (`SizesFrom`);
+* capabilities / IMA signatures: `None` when the tag is absent (`optStrings_ok_iff`), else item `k` of the array BY INDEX,
+  `None` beyond its end;
+* digest `k` is `None` for an empty text, otherwise (algorithm, text) where the algorithm is FILEDIGESTALGO or - when that
+  accessor fails for ANY reason (absent, other type, unknown number) - MD5 (`digest_algo_fallback`), and the pair
+  (algorithm, length of the text) is in the table of `FileDigest::new` (`file_digest_lengths_standard`: the real sizes). -/
+theorem fileEntries_spec {sig h : Header} {tbl : List (Nat × Nat)} {r : List FileEntry}
+    (hr : getFileEntries sig h tbl = .ok r) :
+    (getU16Array h IndexTag.RPMTAG_FILEMODES = .err "notfound" ∧ r = []) ∨
+    ∃ ms us gs ds ts ss fs ls ps caps ima,
+      getU16Array h IndexTag.RPMTAG_FILEMODES = .ok ms ∧
+      getStringArray h IndexTag.RPMTAG_FILEUSERNAME = .ok us ∧
+      getStringArray h IndexTag.RPMTAG_FILEGROUPNAME = .ok gs ∧
+      getStringArray h IndexTag.RPMTAG_FILEDIGESTS = .ok ds ∧
+      getU32Array h IndexTag.RPMTAG_FILEMTIMES = .ok ts ∧
+      SizesFrom h ss ∧
+      getU32Array h IndexTag.RPMTAG_FILEFLAGS = .ok fs ∧
+      getStringArray h IndexTag.RPMTAG_FILELINKTOS = .ok ls ∧
+      getFilePaths h = .ok ps ∧
+      optStrings (getStringArray h IndexTag.RPMTAG_FILECAPS) = .ok caps ∧
+      optStrings (getStringArray sig SigTag.RPMSIGTAG_FILESIGNATURES) = .ok ima ∧
+      (∀ k, r[k]? = entryAt (digestAlgoOrMd5 h) caps ima 0 ps us gs ms ds ts ss fs ls k) ∧
+      r.length = min ps.length (min us.length (min gs.length (min ms.length (min ds.length (min ts.length
+        (min ss.length (min fs.length ls.length))))))) ∧
+      (∀ k d, k < r.length → ds[k]? = some d → d ≠ [] → (digestAlgoOrMd5 h, d.length) ∈ tbl) := by
+  unfold getFileEntries at hr
+  simp only at hr
+  split at hr
+  · rename_i hnf
+    cases hr
+    exact .inl ⟨(isNotFound_iff _).mp hnf, rfl⟩
+  · right
+    split at hr
+    · cases hr
+    · cases hr
+    · rename_i caps hcaps
+      split at hr
+      · cases hr
+      · cases hr
+      · rename_i ima hima
+        split at hr
+        · rename_i ms us gs ds ts ss fs ls hms hus hgs hds hts hss hfs hls
+          simp only [Out.bind_eq_ok] at hr
+          obtain ⟨ps, hps, hb⟩ := hr
+          obtain ⟨b1, b2⟩ := buildEntries_spec hb
+          refine ⟨ms, us, gs, ds, ts, ss, fs, ls, ps, caps, ima, hms, hus, hgs, hds, hts, ?_, hfs, hls, hps, hcaps, hima, b1, entries_length b1, b2⟩
+          unfold SizesFrom
+          cases h64 : getU64Array h IndexTag.RPMTAG_LONGFILESIZES with
+          | ok v => rw [h64] at hss; cases hss; exact .inl rfl
+          | err c => rw [h64] at hss; exact .inr ⟨(fun v hv => nomatch hv), hss⟩
+          | panic c => rw [h64] at hss; exact .inr ⟨(fun v hv => nomatch hv), hss⟩
+        · simp only [Out.bind_eq_ok] at hr
+          obtain ⟨_, _, _, _, _, _, _, _, _, _, _, _, _, _, _, _, hp⟩ := hr
+          cases hp
+
+theorem entryAt_fields {algo : Nat} {caps ima : Option (List Bytes)} {off : Nat} {ps us gs : List Bytes} {ms : List Nat}
+    {ds : List Bytes} {ts ss fs : List Nat} {ls : List Bytes} {k : Nat} {e : FileEntry}
+    (h : entryAt algo caps ima off ps us gs ms ds ts ss fs ls k = some e) :
+    ps[k]? = some e.path ∧ ms[k]? = some e.mode ∧ us[k]? = some e.user ∧ gs[k]? = some e.group ∧
+    ts[k]? = some e.mtime ∧ ss[k]? = some e.size ∧ fs[k]? = some e.flags ∧ ls[k]? = some e.linkto ∧
+    (∃ d, ds[k]? = some d ∧ e.digest = digestField algo d) ∧
+    e.caps = caps.bind (·[off + k]?) ∧ e.ima = ima.bind (·[off + k]?) := by
+  simp only [entryAt, Option.bind_eq_bind, Option.bind_eq_some_iff] at h
+  obtain ⟨p, hp, u, hu, g, hg, m, hm, d, hd, t, ht, s, hs, f, hf, l, hl, he⟩ := h
+  simp only [Option.pure_def, Option.some.injEq] at he
+  subst he
+  exact ⟨hp, hm, hu, hg, ht, hs, hf, hl, ⟨d, hd, rfl⟩, rfl, rfl⟩
+
+
+/-- the optional arrays: `Some(array)` when the getter succeeds, `None` exactly for TagNotFound; any other error is the
+accessor's error -/
+theorem optStrings_ok_iff (g : Out (List Bytes)) (o : Option (List Bytes)) :
+    optStrings g = .ok o ↔ (∃ l, g = .ok l ∧ o = some l) ∨ (g = .err "notfound" ∧ o = none) := by
+  unfold optStrings
+  split
+  · rename_i l
+    constructor
+    · intro h; cases h; exact .inl ⟨l, rfl, rfl⟩
+    · rintro (⟨l', h1, h2⟩ | ⟨h1, _⟩)
+      · cases h1; rw [h2]
+      · cases h1
+  · constructor
+    · intro h; cases h; exact .inr ⟨rfl, rfl⟩
+    · rintro (⟨l', h1, _⟩ | ⟨_, h2⟩)
+      · cases h1
+      · rw [h2]
+  · rename_i c hc
+    constructor
+    · intro h; cases h
+    · rintro (⟨l', h1, _⟩ | ⟨h1, _⟩)
+      · cases h1
+      · cases h1; exact absurd rfl hc
+  · constructor
+    · intro h; cases h
+    · rintro (⟨l', h1, _⟩ | ⟨h1, _⟩) <;> cases h1
+
+/-- `get_file_digest_algorithm` succeeds exactly when the first FILEDIGESTALGO entry is a non-empty INT32 array whose
+first number is a discriminant of `DigestAlgorithm` (table scraped from src/constants.rs) -/
+theorem fileDigestAlgorithm_ok_iff (h : Header) (a : Nat) :
+    getFileDigestAlgorithm h = .ok a ↔
+      getU32 h IndexTag.RPMTAG_FILEDIGESTALGO = .ok a ∧ a ∈ digestAlgoTable.map (·.2) := by
+  unfold getFileDigestAlgorithm
+  cases hg : getU32 h IndexTag.RPMTAG_FILEDIGESTALGO with
+  | ok x =>
+    simp only [Out.bind_ok, Out.ok.injEq]
+    by_cases hx : digestAlgoTable.any (·.2 == x) = true
+    · rw [if_pos hx]
+      simp only [Out.pure_eq, Out.ok.injEq]
+      constructor
+      · rintro rfl
+        obtain ⟨p, hp, he⟩ := List.any_eq_true.mp hx
+        exact ⟨rfl, List.mem_map.mpr ⟨p, hp, by simpa using he⟩⟩
+      · exact fun hh => hh.1
+    · rw [if_neg hx]
+      constructor
+      · intro hh; cases hh
+      · rintro ⟨rfl, hm⟩
+        obtain ⟨p, hp, he⟩ := List.mem_map.mp hm
+        exact absurd (List.any_eq_true.mpr ⟨p, hp, by simpa using he⟩) hx
+  | err c => simp
+  | panic c => simp
+
+/-- **the algorithm fallback, stated**: the digests of `get_file_entries` carry FILEDIGESTALGO when that accessor
+succeeds; when it fails for ANY reason - tag absent, entry of another type, empty array, a number that is no
+`DigestAlgorithm` - they are labelled with the variant written in `unwrap_or(..)`, which the source says is `Md5`
+(scraped: `Gen.fileDigestAlgoFallback`, tools/gen/file_entries_shape.py); the model's literal is that number. -/
+theorem digest_algo_fallback (h : Header) :
+    (∀ a, getFileDigestAlgorithm h = .ok a → digestAlgoOrMd5 h = a) ∧
+    ((∀ a, getFileDigestAlgorithm h ≠ .ok a) → digestAlgoOrMd5 h = fileDigestAlgoFallback) ∧
+    ("Md5", fileDigestAlgoFallback) ∈ digestAlgoTable := by
+  refine ⟨fun a ha => by simp only [digestAlgoOrMd5, ha], fun hn => ?_, by simp [digestAlgoTable, fileDigestAlgoFallback]⟩
+  unfold digestAlgoOrMd5
+  split
+  · rename_i a ha; exact absurd ha (hn a)
+  · rfl
+
+/-- the two "64-bit first" accessors read the tags the source names, in the source's order -/
+theorem size_tags_scraped :
+    fileSizeTags = (IndexTag.RPMTAG_LONGFILESIZES, IndexTag.RPMTAG_FILESIZES) ∧
+    installedSizeTags = (IndexTag.RPMTAG_LONGSIZE, IndexTag.RPMTAG_SIZE) := by decide
+
 /-! ### non-vacuity -/
 -- a 2-entry header (STRING "abc" at 0, INT32 [7] at 4): the getters return what is stored
 def sampleHdr : Bytes := [142, 173, 232, 1, 1, 2, 3, 4, 0, 0, 0, 2, 0, 0, 0, 8, 0, 0, 3, 232, 0, 0, 0, 6, 0, 0, 0, 0,
@@ -362,5 +785,53 @@ example : getPayloadCompressorVariant (hSize [⟨IndexTag.RPMTAG_PAYLOADCOMPRESS
 -- source package: presence of the tag alone decides
 example : entryIsPresent (hSize [⟨IndexTag.RPMTAG_SOURCEPACKAGE, .null, 0, 0⟩]) IndexTag.RPMTAG_SOURCEPACKAGE = true := by decide
 example : entryIsPresent (hSize [⟨IndexTag.RPMTAG_SIZE, .int32 [1], 0, 1⟩]) IndexTag.RPMTAG_SOURCEPACKAGE = false := by decide
+
+-- multizip stops at the shortest array
+example : zip3 [1, 2, 3] [4, 5] [6, 7, 8] = [(1, 4, 6), (2, 5, 7)] := by decide
+-- a two-file header: MTIMES has a third item (cut), CAPS has only one (second file: None), both size tags (64-bit wins),
+-- no FILEDIGESTALGO (MD5 label on the 32-character digest), an empty digest text (None)
+def hFiles (extra : List Entry) : Header := hSize (extra ++ [
+  ⟨IndexTag.RPMTAG_BASENAMES, .strArray [[97], [98]], 0, 2⟩,
+  ⟨IndexTag.RPMTAG_DIRINDEXES, .int32 [0, 0], 0, 2⟩,
+  ⟨IndexTag.RPMTAG_DIRNAMES, .strArray [[47]], 0, 1⟩,
+  ⟨IndexTag.RPMTAG_FILEMODES, .int16 [33188, 33188], 0, 2⟩,
+  ⟨IndexTag.RPMTAG_FILEUSERNAME, .strArray [[114], [114]], 0, 2⟩,
+  ⟨IndexTag.RPMTAG_FILEGROUPNAME, .strArray [[114], [114]], 0, 2⟩,
+  ⟨IndexTag.RPMTAG_FILEDIGESTS, .strArray [List.replicate 32 48, []], 0, 2⟩,
+  ⟨IndexTag.RPMTAG_FILEMTIMES, .int32 [5, 6, 7], 0, 3⟩,
+  ⟨IndexTag.RPMTAG_FILESIZES, .int32 [1, 2], 0, 2⟩,
+  ⟨IndexTag.RPMTAG_LONGFILESIZES, .int64 [5000000000, 9], 0, 2⟩,
+  ⟨IndexTag.RPMTAG_FILEFLAGS, .int32 [0, 1], 0, 2⟩,
+  ⟨IndexTag.RPMTAG_FILECAPS, .strArray [[61]], 0, 1⟩,
+  ⟨IndexTag.RPMTAG_FILELINKTOS, .strArray [[], []], 0, 2⟩])
+example : getFileEntries (hSize []) (hFiles []) =
+    .ok [⟨[47, 97], 33188, [114], [114], 5, 5000000000, 0, some (1, List.replicate 32 48), some [61], [], none⟩,
+         ⟨[47, 98], 33188, [114], [114], 6, 9, 1, none, none, [], none⟩] := by decide
+-- FILEDIGESTALGO of another type, or a number that is no DigestAlgorithm: the MD5 label again (same result) …
+example : getFileEntries (hSize []) (hFiles [⟨IndexTag.RPMTAG_FILEDIGESTALGO, .strArray [[56]], 0, 1⟩]) =
+    getFileEntries (hSize []) (hFiles []) := by decide
+example : getFileEntries (hSize []) (hFiles [⟨IndexTag.RPMTAG_FILEDIGESTALGO, .int32 [99], 0, 1⟩]) =
+    getFileEntries (hSize []) (hFiles []) := by decide
+-- … while SHA-256 (8) refuses the 32-character text: an error, not a relabelled digest
+example : getFileEntries (hSize []) (hFiles [⟨IndexTag.RPMTAG_FILEDIGESTALGO, .int32 [8], 0, 1⟩]) = .err "unsupported" := by decide
+-- LONGFILESIZES of another type: the 32-bit sizes are used
+example : (getFileEntries (hSize []) (hFiles [⟨IndexTag.RPMTAG_LONGFILESIZES, .int32 [3, 4], 0, 2⟩])).map (·.map (·.size)) = .ok [1, 2] := by decide
+-- IMA signatures come from the SIGNATURE header, by index
+example : (getFileEntries (hSize [⟨SigTag.RPMSIGTAG_FILESIGNATURES, .strArray [[48]], 0, 1⟩]) (hFiles [])).map (·.map (·.ima)) =
+    .ok [some [48], none] := by decide
+-- no FILEMODES: the documented empty list; a missing mandatory array: an error
+example : getFileEntries (hSize []) (hSize []) = .ok [] := by decide
+example : getFileEntries (hSize []) (hSize [⟨IndexTag.RPMTAG_FILEMODES, .int16 [1], 0, 1⟩]) = .err "notfound" := by decide
+-- changelog: three arrays of lengths 2, 1, 2 give one entry; all absent: empty; one absent: error
+example : getChangelog (hSize [⟨IndexTag.RPMTAG_CHANGELOGNAME, .strArray [[97], [98]], 0, 2⟩,
+    ⟨IndexTag.RPMTAG_CHANGELOGTIME, .int32 [7], 0, 1⟩, ⟨IndexTag.RPMTAG_CHANGELOGTEXT, .strArray [[99], [100]], 0, 2⟩]) =
+    .ok [⟨[97], 7, [99]⟩] := by decide
+example : getChangelog (hSize []) = .ok [] := by decide
+example : getChangelog (hSize [⟨IndexTag.RPMTAG_CHANGELOGNAME, .strArray [[97]], 0, 1⟩]) = .err "notfound" := by decide
+-- scriptlet: flags of another type and an absent interpreter are `None`; a missing script is the error
+example : getScriptlet (hSize [⟨1023, .str [120], 0, 1⟩, ⟨5020, .str [49], 0, 1⟩]) (1023, 5020, 1085) = .ok ⟨[120], none, none⟩ := by decide
+example : getScriptlet (hSize [⟨1023, .str [120], 0, 1⟩, ⟨5020, .int32 [3], 0, 1⟩, ⟨1085, .strArray [[47]], 0, 1⟩]) (1023, 5020, 1085) =
+    .ok ⟨[120], some 3, some [[47]]⟩ := by decide
+example : getScriptlet (hSize [⟨5020, .int32 [3], 0, 1⟩]) (1023, 5020, 1085) = .err "notfound" := by decide
 
 end RpmVerif.C05
